@@ -142,7 +142,7 @@ func New(startTime time.Time, logLevel slog.Level) *Handler {
 	gpsShiftedStartTime := startTime.Add(gpsShift)
 	beidouShift := time.Duration(-1*utils.BeidouLeapSeconds) * time.Second
 	beidouShiftedStartTime := startTime.Add(beidouShift)
-	glonassShift := time.Duration(-1 * int(utils.GlonassTimeOffset))
+	glonassShift := -1 * utils.GlonassTimeOffset
 	glonassShiftedStartOfWeek := startTime.Add(glonassShift)
 
 	// Find last Sunday from the shifted start time (which may be the same day).
